@@ -30,34 +30,7 @@ pub struct Case {
 /// and their neighbours: as a string-table index they are ordinary numbers.
 const SHN_SPECIAL: [u32; 7] = [0xff00, 0xff1f, 0xfff1, 0xfff2, 0xfffe, 0xffff, 0x1_0000];
 
-/// Harness-owned, NUL-terminated names the string-table entry points at.
-/// (`name()` dereferences an address stored in the tag: documented external
-/// memory, so the harness has to own it.)
-fn names() -> &'static [u8] {
-    static N: OnceLock<Vec<u8>> = OnceLock::new();
-    N.get_or_init(|| {
-        let mut v = Vec::new();
-        v.extend_from_slice(b"\0.text\0.data\0");
-        v.extend_from_slice(&[0xff, 0xfe, 0]);
-        v.extend_from_slice(".b\u{e9}ss\0.rodata\0\0".as_bytes());
-        v.extend_from_slice(&[0xc3, 0]);
-        v.extend_from_slice(b"last\0");
-        v
-    })
-}
-
-const NAME_OFFS: [u32; 9] = [0, 1, 7, 13, 16, 23, 31, 32, 34];
-
-fn model_name(idx: u32) -> Val {
-    let n = names();
-    let s = &n[idx as usize..];
-    let end = s.iter().position(|b| *b == 0).unwrap();
-    if std::str::from_utf8(&s[..end]).is_ok() {
-        Val::Txt(hex(&s[..end]))
-    } else {
-        Val::ErrUtf8
-    }
-}
+use mb2_model::elfnames::{model_name, names, NAME_OFFS};
 
 fn image(c: &Case) -> Vec<u8> {
     let mut body: Vec<u8> = (0..12 + c.table_len).map(|i| marker(c.key, i)).collect();
@@ -75,7 +48,7 @@ fn image(c: &Case) -> Vec<u8> {
             }
             // every entry's addr field points at the names: whichever entry the
             // tag designates as string table, name() stays inside owned memory
-            let p = names().as_ptr() as u64;
+            let p = names32() as u64;
             if es == 40 {
                 // a 32-bit layout cannot hold a 64-bit pointer; see `names32`
                 put32(&mut body, at + 12, names32() as u32);
@@ -93,22 +66,10 @@ fn image(c: &Case) -> Vec<u8> {
     img
 }
 
-/// A copy of the names below 4 GiB for the ELF32 layout (mapped once).
+/// The names buffer every harness process maps below 4 GiB (the ELF32 layout
+/// can hold its address).
 fn names32() -> usize {
-    static P: OnceLock<usize> = OnceLock::new();
-    *P.get_or_init(|| unsafe {
-        let want = 0x2000_0000usize as *mut libc::c_void;
-        let p = libc::mmap(want, 4096, libc::PROT_READ | libc::PROT_WRITE, libc::MAP_PRIVATE | libc::MAP_ANONYMOUS | libc::MAP_FIXED_NOREPLACE, -1, 0);
-        if p == libc::MAP_FAILED {
-            // let the kernel choose below 4 GiB
-            let p = libc::mmap(std::ptr::null_mut(), 4096, libc::PROT_READ | libc::PROT_WRITE, libc::MAP_PRIVATE | libc::MAP_ANONYMOUS | libc::MAP_32BIT, -1, 0);
-            assert!(p != libc::MAP_FAILED, "cannot map names below 4 GiB");
-            std::ptr::copy_nonoverlapping(names().as_ptr(), p as *mut u8, names().len());
-            return p as usize;
-        }
-        std::ptr::copy_nonoverlapping(names().as_ptr(), p as *mut u8, names().len());
-        p as usize
-    })
+    mb2_model::elfnames::install().expect("the names buffer could not be mapped at its fixed address")
 }
 
 /// Real-API exercise: view the image as ELF-sections tag, iterate, decode every
